@@ -261,7 +261,7 @@ Theorem authorised_is_signed h id rec : authorised h id rec ->
       (required n (n_signers i) <= count_genuine (the_kis i) (sig_args i) (a_sigs i) (the_msg i))%nat.
 Proof.
   intros (cr & i & o & bi & Hin & _ & Ha & Hrec). exists cr, i, o, bi. repeat split; try assumption.
-  destruct (auth_sound i o Ha) as (n & kt & H1 & _ & _ & _ & H5 & H6). exists n, kt. repeat split; assumption.
+  destruct (auth_sound i o Ha) as (n & kt & H1 & _ & _ & _ & _ & H5 & H6). exists n, kt. repeat split; assumption.
 Qed.
 
 (* a task has an effect only if its request authenticates and its method is not disabled *)
@@ -326,7 +326,7 @@ Example pipeline_example :
   let base := [[]; cc; cc; [98]%N; [49; 55; 48; 48; 48; 48; 48; 48; 48; 48; 48; 48; 49]%N; k1] in
   let msg := fn ++ concat base in
   let tbl := [(k1, KI 1 0 false)] in
-  let mk sg := AuthIn 2 fn (base ++ [[115]%N]) cc cc (AclOk 9 false false 1 [0]%N) tbl [sg] in
+  let mk sg := AuthIn 2 fn (base ++ [[115]%N]) cc cc (AclOk 9 false false 1 [0]%N) tbl [sg] (Some cc) in
   let m := Method 1 MTx true GNone false in
   let e := PEnv (GCfg 77 5 [] false false) [[SPut 4 [42]%N]] m in
   let robot := Creator true 77 0 false in let user := Creator true 8 0 false in
